@@ -5,6 +5,7 @@ import O2P.Lemmas.InferOrTree
 import O2P.Lemmas.PostFlat
 import O2P.Lemmas.InferOrAll
 import O2P.Lemmas.MissingAndAll
+import O2P.Lemmas.FilterDefunctAll
 /-!
 # C06 — gate inference explains all observed successor sets; exact without mixed OR
 The quantifier of C06 is finite and is enumerated by `domain`: `domain_counts` (kernel-checked) gives
@@ -182,6 +183,38 @@ example :
     let t : PTree := .node .xor [.leaf "e", .node .or [.leaf "a", .leaf "b", .leaf "c"]]
     (NE t.labels).Nodup ∧ (weightedCover (projF [["e"], ["a", "b"], ["c"], ["a", "b", "c"]] ["a", "b", "c"])
       ["a", "b", "c"]) = [some [["c"], ["a", "b"]]] := by decide +kernel
+
+/-- **C06, the repository's whole post-processing** (`reduce_process_tree_to_preferred_logic_gates` = `postProcess`:
+the OR inference over the whole tree, the defunct-OR filter with its iteration by position over the list it mutates,
+the AND recovery under every choice of the cover step).  For **every** tree of the miner that names every event once
+and passes the decidable test `wfT false`, and every family of observed sets without repetitions or empty names:
+**every** outcome of the post-processing produces every non-empty observed set that the miner's tree produces.
+So the first sentence of the property holds for `calculate_logic_gates` whenever the miner's raw tree is itself sound
+and well-formed — what remains outside the proof is pm4py's miner (its raw trees are taken as data; the check
+evaluates the hypotheses on each of them) and the trees failing `wfT`, where the recursion of the OR inference is
+unsound (example above) and only execution decides.  The model `postProcess` is compared with the real functions on
+the real raw trees of every run, up to the order of children. -/
+theorem post_process_sound (F : List (List String)) (hF : ∀ s0 ∈ F, "" ∉ s0) (hFnd : ∀ s0 ∈ F, s0.Nodup)
+    (t : PTree) (hw : wfT false t = true) (hnd : (NE t.labels).Nodup) (o : PTree) (ho : o ∈ postProcess F t)
+    (s : List String) (hs : s ∈ F) (hne : s ≠ []) (hraw : t.sem s) : o.sem s := by
+  unfold postProcess at ho
+  have g1 := inferOrAll_goodS F hF 50 false t hw hnd
+  have g2 := (filter_good F hF 200).1 _ (g1.nd hnd)
+  have g3 := missingAnd_good F hF hFnd 50 _ (g2.nd (g1.nd hnd)) o ho
+  exact ((g1.trans g2).trans g3).pos s hne ⟨s, hs, fun _ _ => Iff.rfl⟩ hraw
+
+/-- … and the defunct-OR filter alone, for any tree with distinct names -/
+theorem filter_defunct_sound (F : List (List String)) (hF : ∀ s0 ∈ F, "" ∉ s0) (fuel : Nat) (t : PTree)
+    (hnd : (NE t.labels).Nodup) (s : List String) (hs : s ∈ F) (hne : s ≠ []) (hraw : t.sem s) :
+    (filterDefunct fuel t).sem s :=
+  ((filter_good F hF fuel).1 t hnd).pos s hne ⟨s, hs, fun _ _ => Iff.rfl⟩ hraw
+
+/-- non-vacuity: the raw tree `+(c, X(tau, +(d, X(tau, a))))` with the observations `{c} {c,d} {c,d,a}` meets every
+hypothesis of `post_process_sound` -/
+example :
+    let t : PTree := .node .and [.leaf "c", .node .xor [.tau, .node .and [.leaf "d", .node .xor [.tau, .leaf "a"]]]]
+    let F := [["c"], ["c", "d"], ["c", "d", "a"]]
+    wfT false t = true ∧ (NE t.labels).Nodup ∧ (∀ s0 ∈ F, "" ∉ s0) ∧ (∀ s0 ∈ F, s0.Nodup) := by decide +kernel
 
 /-- the executable test of the model (`checkIsOr`, compared with the real function on generated trees) is that
 decision on the labels of the subtrees -/
